@@ -49,3 +49,187 @@ func HarnessBodySize() {
 	}
 	verif.Reach("size-done")
 }
+
+// ---- hostile frames over WebSocket ----
+
+var hostileMethods = []string{"xrpc.cancel", "xrpc.ch.val", "xrpc.ch.close", ""}
+var paramShapes = []string{"absent", "null", "[]", "[x]", "[x,y]", "{}"}
+var xKinds = []string{"num", "str", "bool", "null", "arr", "obj", "neg", "frac", "huge"}
+
+func xValue(k int) interface{} {
+	switch k {
+	case 0:
+		return verif.Int("x")
+	case 1:
+		return verif.String("xs", 2)
+	case 2:
+		return true
+	case 3:
+		return nil
+	case 4:
+		return []interface{}{1}
+	case 5:
+		return map[string]interface{}{"a": 1}
+	case 6:
+		return -1
+	case 7:
+		return 1.5
+	}
+	return 1e300
+}
+
+// hostileFrame builds one frame of the grammar and tags the path with its shape.
+func hostileFrame() []byte {
+	kind := verif.Choice("kind", 4) // 0 builtin/response object, 1 non-JSON, 2 empty, 3 call with odd id
+	switch kind {
+	case 1:
+		verif.Class("frame=non-json")
+		return []byte("{nonsense")
+	case 2:
+		verif.Class("frame=empty")
+		return []byte{}
+	case 3:
+		verif.Class("frame=call-odd-id")
+		ids := []interface{}{true, []interface{}{1}, map[string]interface{}{"a": 1}, 1.5, -7, "s"}
+		b, _ := json.Marshal(map[string]interface{}{"jsonrpc": "2.0", "id": ids[verif.Choice("oddid", len(ids))], "method": "H.Inc", "params": []interface{}{1}})
+		return b
+	}
+	mi := verif.Choice("method", len(hostileMethods))
+	ps := verif.Choice("params", len(paramShapes))
+	m := map[string]interface{}{"jsonrpc": "2.0"}
+	if hostileMethods[mi] != "" {
+		m["method"] = hostileMethods[mi]
+	} else {
+		// a response to a request never made, id of any type
+		ids := []interface{}{12345, "zz", nil, true, 1.5}
+		m["id"] = ids[verif.Choice("respid", len(ids))]
+		if verif.Bool("resp_is_error") {
+			m["error"] = map[string]interface{}{"code": 1, "message": "x"}
+		} else {
+			m["result"] = 1
+		}
+	}
+	tag := "method=" + hostileMethods[mi] + ",params=" + paramShapes[ps]
+	switch ps {
+	case 1:
+		m["params"] = nil
+	case 2:
+		m["params"] = []interface{}{}
+	case 3:
+		k := verif.Choice("xkind", len(xKinds))
+		tag += ",x=" + xKinds[k]
+		m["params"] = []interface{}{xValue(k)}
+	case 4:
+		k := verif.Choice("xkind", len(xKinds))
+		tag += ",x=" + xKinds[k]
+		m["params"] = []interface{}{xValue(k), 2}
+	case 5:
+		m["params"] = map[string]interface{}{"a": 1}
+	}
+	if verif.Bool("with_id") && hostileMethods[mi] != "" {
+		m["id"] = 5
+		tag += ",id"
+	}
+	verif.Class(tag)
+	b, _ := json.Marshal(m)
+	return b
+}
+
+type wsReply struct {
+	ID     interface{} `json:"id"`
+	Result *int64      `json:"result"`
+	Error  *struct {
+		Code int `json:"code"`
+	} `json:"error"`
+	Method string `json:"method"`
+}
+
+func probe(pc *verif.PeerConn, id int64, x int64) bool {
+	b, _ := json.Marshal(map[string]interface{}{"jsonrpc": "2.0", "id": id, "method": "H.Inc", "params": []interface{}{x}})
+	if !pc.Send(b) {
+		return false
+	}
+	for i := 0; i < 4; i++ {
+		rb, ok := pc.Recv()
+		if !ok {
+			return false
+		}
+		var r wsReply
+		if json.Unmarshal(rb, &r) != nil {
+			continue
+		}
+		if f, ok := r.ID.(float64); ok && f == float64(id) {
+			return r.Error == nil && r.Result != nil && *r.Result == x+1
+		}
+	}
+	return false
+}
+
+// HarnessHostileServer: S hostile frames sent to a server over a raw WS
+// connection; afterwards a valid call on the same and on a fresh connection is answered.
+func HarnessHostileServer() {
+	h := &H{}
+	srv := jsonrpc.NewServer()
+	srv.Register("H", h)
+	pc := verif.DialRaw(srv, nil)
+	n := verif.Bound("S", 1)
+	for i := 0; i < n; i++ {
+		pc.Send(hostileFrame())
+	}
+	verif.Assert(probe(pc, 99, 41), "probe-on-same-connection-answered")
+	pc2 := verif.DialRaw(srv, nil)
+	verif.Assert(probe(pc2, 100, 1), "probe-on-other-connection-answered")
+	verif.Assert(!verif.Crashed(), "process-survives")
+	pc.CloseGraceful()
+	pc2.CloseGraceful()
+	verif.Quiesce()
+	verif.Reach("hostile-server-done")
+}
+
+type C struct {
+	Inc func(ctx context.Context, a int) (int, error)
+}
+
+// HarnessHostileClient: a fake server sends hostile frames to a client that has a
+// call outstanding; the call still gets its genuine answer and later calls work.
+func HarnessHostileClient() {
+	l := verif.ListenWS()
+	frame := hostileFrame()
+	go func() {
+		verif.Daemon()
+		pc := l.Accept()
+		first := true
+		for {
+			b, ok := pc.Recv()
+			if !ok {
+				return
+			}
+			var rq struct {
+				ID     interface{}       `json:"id"`
+				Params []json.RawMessage `json:"params"`
+			}
+			if json.Unmarshal(b, &rq) != nil || rq.ID == nil {
+				continue
+			}
+			if first {
+				first = false
+				pc.Send(frame)
+			}
+			var a int64
+			json.Unmarshal(rq.Params[0], &a)
+			rb, _ := json.Marshal(map[string]interface{}{"jsonrpc": "2.0", "id": rq.ID, "result": a + 1})
+			pc.Send(rb)
+		}
+	}()
+	var c C
+	closer, err := jsonrpc.NewMergeClient(context.Background(), l.URL(), "H", []interface{}{&c}, nil)
+	verif.Assert(err == nil, "client-created")
+	v, err := c.Inc(context.Background(), 41)
+	verif.Assert(err == nil && v == 42, "call-during-hostile-frame-answered")
+	v2, err2 := c.Inc(context.Background(), 1)
+	verif.Assert(err2 == nil && v2 == 2, "later-call-answered")
+	verif.Assert(!verif.Crashed(), "process-survives")
+	closer()
+	verif.Quiesce()
+	verif.Reach("hostile-client-done")
+}
